@@ -25,34 +25,35 @@ type Goroutine struct {
 }
 
 type selState struct {
-	fired   bool
-	caseIdx int
-	val     Value
-	ok      bool
+	fired         bool
+	caseIdx       int
+	val           Value
+	ok            bool
 	panicOnResume bool
-	vcIn    vclock // clock to acquire when resumed (race monitor)
+	vcIn          vclock // clock to acquire when resumed (race monitor)
 }
 
 type waiter struct {
 	g       *Goroutine
 	sel     *selState
 	caseIdx int
-	val     Value // for senders
+	val     Value  // for senders
 	vc      vclock // sender's clock at the time it blocked (race monitor)
 }
 
 type Chan struct {
-	id       int
-	capacity int
-	buf      []Value
-	closed   bool
-	sendq    []*waiter
-	recvq    []*waiter
-	elem     types.Type
-	env      bool   // environment-driven (ticker/timer): may deliver at any time
-	envName  string
+	id         int
+	capacity   int
+	buf        []Value
+	closed     bool
+	sendq      []*waiter
+	recvq      []*waiter
+	elem       types.Type
+	env        bool // environment-driven (ticker/timer): may deliver at any time
+	envName    string
 	envStopped bool
-	envQuiet   bool // never fires (harness declared timeouts out of scope)
+	oneShot    bool     // time.After / time.NewTimer: fires once (until Reset)
+	envQuiet   bool     // never fires (harness declared timeouts out of scope)
 	bufVC      []vclock // clocks travelling with buffered values (race monitor)
 	recvVCs    []vclock // clock of the k-th completed receive
 	nSent      int
@@ -218,7 +219,13 @@ func (r *Run) pickNext(fr *frame, except *Goroutine, why string) *Goroutine {
 // envFire lets the environment deliver on a ticker/timer channel some blocked
 // goroutine is waiting for. Returns the goroutine made runnable.
 func (r *Run) envFire(fr *frame, except *Goroutine) *Goroutine {
-	if r.envFires >= r.eng.cfg.EnvFires {
+	// firings at quiescence have their own budget when LazyFires is set (a pending timer
+	// must eventually fire; the budget only bounds programs that keep waiting for timers)
+	if r.eng.cfg.LazyFires > 0 {
+		if r.lazyFires >= r.eng.cfg.LazyFires {
+			return nil
+		}
+	} else if r.envFires >= r.eng.cfg.EnvFires {
 		return nil
 	}
 	type cand struct {
@@ -243,10 +250,17 @@ func (r *Run) envFire(fr *frame, except *Goroutine) *Goroutine {
 	if len(cs) > 1 {
 		k = r.choose(fr, len(cs), "envfire")
 	}
-	r.envFires++
+	if r.eng.cfg.LazyFires > 0 {
+		r.lazyFires++
+	} else {
+		r.envFires++
+	}
 	c := cs[k]
 	// deliver a value on the env channel
 	r.deliver(c.c, r.envValue(c.c))
+	if c.c.oneShot {
+		c.c.envStopped = true
+	}
 	if c.g.ready != nil && c.g.ready() {
 		return c.g
 	}
@@ -299,7 +313,7 @@ func (r *Run) block(fr *frame, what string, ready func() bool) {
 }
 
 func (r *Run) deadlock(fr *frame, what string) {
-	if r.eng.cfg.EnvBoundOK && r.envFires >= r.eng.cfg.EnvFires {
+	if r.eng.cfg.EnvBoundOK && (r.envFires >= r.eng.cfg.EnvFires || (r.eng.cfg.LazyFires > 0 && r.lazyFires >= r.eng.cfg.LazyFires)) {
 		for _, g := range r.gs {
 			if g.done || !(g.blocked || g == fr.g) {
 				continue
@@ -514,6 +528,9 @@ func (r *Run) chanRecv(fr *frame, cv Value, commaOk bool, elem types.Type) Value
 		if !r.eng.cfg.EnvLazy && r.envFires < r.eng.cfg.EnvFires && r.choose(fr, 2, "envnow") == 1 {
 			r.envFires++
 			c.buf = append(c.buf, r.envValue(c))
+			if c.oneShot {
+				c.envStopped = true
+			}
 		}
 	}
 	if x, k, done := r.tryRecv(c); done {
@@ -614,6 +631,9 @@ func (r *Run) selectStmt(fr *frame, instr *ssa.Select) Value {
 			if !r.eng.cfg.EnvLazy && r.envFires < r.eng.cfg.EnvFires && r.choose(fr, 2, "envnow") == 1 {
 				r.envFires++
 				c.buf = append(c.buf, r.envValue(c))
+				if c.oneShot {
+					c.envStopped = true
+				}
 			}
 		}
 	}
@@ -654,6 +674,8 @@ func (r *Run) selectStmt(fr *frame, instr *ssa.Select) Value {
 		k := 0
 		if len(readyIdx) > 1 && (r.eng.cfg.SchedMode == 1 || r.eng.cfg.SelectChoice) {
 			k = r.choose(fr, len(readyIdx), "select")
+		} else if len(readyIdx) > 1 && r.eng.cfg.SelectLast {
+			k = len(readyIdx) - 1 // the other extreme of Go's random choice among ready cases
 		}
 		return doCase(readyIdx[k])
 	}
@@ -698,8 +720,8 @@ func (r *Run) selectStmt(fr *frame, instr *ssa.Select) Value {
 // ---- sync.Mutex / WaitGroup / Once as engine objects keyed by address
 
 type syncState struct {
-	locked  map[*Value]bool
-	rlocks  map[*Value]int
-	wg      map[*Value]int64
-	once    map[*Value]bool
+	locked map[*Value]bool
+	rlocks map[*Value]int
+	wg     map[*Value]int64
+	once   map[*Value]bool
 }
